@@ -91,7 +91,8 @@ probe_command = S.struct_probe_command
 def build_corpus(tier, rng):
     c = Corpus(ID)
     thorough = tier == "thorough"
-    cands = [("systematic", it) for it in systematic(rng, thorough)]
+    from props import c01 as _c01
+    cands = _c01.generic_shapes() + [("systematic", it) for it in systematic(rng, thorough)]
     # the LONGEST serialize is the longest VALUE, however the literals are written in the source (escapes, raw strings)
     def sv(text, style=None):
         m = ser(text)
